@@ -27,14 +27,16 @@ Section Calls.
   (* one request of `estimate` = (time points, individual parameters) *)
   Definition ereq := (option V * list (nat * option V))%type.
 
-  Definition estimate_at (l tvar modelvar : nat) (q : ereq) : list (ev V) :=
-    [EClone Cur; ESet (Loc l) tvar (konst V (fst q))] ++ sets (Loc l) (snd q) ++ [EGet (Loc l) modelvar].
+  (* `outs`: the variables read at the end ("model"; the joint model also reads "predictions_event", models/joint.py) ;
+     the assignments of a request may include further data variables (the joint model assigns "event") *)
+  Definition estimate_at (l tvar : nat) (outs : list nat) (q : ereq) : list (ev V) :=
+    [EClone Cur; ESet (Loc l) tvar (konst V (fst q))] ++ sets (Loc l) (snd q) ++ map (fun n => EGet (Loc l) n) outs.
 
   (* the j-th individual is computed on the (l + j)-th state created by the call *)
-  Fixpoint estimate_many (l tvar modelvar : nat) (reqs : list ereq) : list (ev V) :=
+  Fixpoint estimate_many (l tvar : nat) (outs : list nat) (reqs : list ereq) : list (ev V) :=
     match reqs with
     | [] => []
-    | q :: t => estimate_at l tvar modelvar q ++ estimate_many (S l) tvar modelvar t
+    | q :: t => estimate_at l tvar outs q ++ estimate_many (S l) tvar outs t
     end.
 
   (* events that address only states created by the call from the k-th on (clones of anything are allowed: a clone
